@@ -109,7 +109,18 @@ theorem VInv.rise {v : View} (h : VInv v) (x : Tok) (rest : List Tok) (hav : v.a
   · intro _ y hy
     change y ∈ data (v.av ++ [finTok x.retries]) at hy
     rw [hd] at hy; exact hcap y hy
-  · refine List.pairwise_append.2 ⟨h.beh, List.pairwise_singleton _ _, ?_⟩
+  · have hmono : v.av.Pairwise (Cov (riseV v x.retries g').pp.expect) := by
+      refine h.beh.imp ?_
+      intro a b hab ha hb
+      rcases hab ha hb with h1 | h1 | ⟨k, k1, k2, k3⟩
+      · exact Or.inl h1
+      · exact Or.inr (Or.inl h1)
+      · refine Or.inr (Or.inr ⟨k, k1, ?_, k3⟩)
+        simp only [riseV, PartProd.setExp]
+        split
+        · rfl
+        · exact k2
+    refine List.pairwise_append.2 ⟨hmono, List.pairwise_singleton _ _, ?_⟩
     intro a _ b hb _ hk
     rw [List.mem_singleton.1 hb, finTok_kind] at hk; cases hk
   · intro f hf hk
@@ -177,7 +188,17 @@ theorem VInv.fail {v : View} (h : VInv v) (M : Nat) (hg : v.good = true) :
 
 /-- after the chaser of the current level has been consumed: the arrival stream has only fresh tokens and
     tokens above the current level -/
-def ZV (v : View) : Prop := ∀ y ∈ data v.av, y.retries = 0 ∨ v.pp.hwm < y.retries
+def ZV (v : View) : Prop := ∀ y ∈ data v.av, y.retries = 0 ∨ v.pp.hwm < y.retries ∨
+  ∃ k, k < v.pp.hwm ∧ v.pp.expect k = true ∧ y.retries ≤ k
+
+/-- what `ZV` says at level `j + 1`: nothing in the arrival stream sits exactly at that level -/
+theorem ZV.split {v : View} (hz : ZV v) {j : Nat} (hj : v.pp.hwm = j + 1) :
+    ∀ y ∈ data v.av, y.retries ≤ j ∨ j + 1 < y.retries := by
+  intro y hy
+  rcases hz y hy with h | h | ⟨k, k1, _, k3⟩
+  · left; omega
+  · right; omega
+  · left; omega
 
 def downPP (pp : PartProd.St) (j : Nat) : PartProd.St :=
   { pp with hwm := j, bufs := PartProd.setBuf pp.bufs j [] }
@@ -224,15 +245,18 @@ theorem VInv.down0 {v : View} (h : VInv v) (hz : ZV v) {j : Nat} (hj : v.pp.hwm 
         (data v.av).filter (fun t => decide (v.pp.hwm < t.retries)) := by
       apply List.filter_congr
       intro y hy
-      rcases hz y hy with h0 | h1
-      · rw [h0]; simp
+      rcases hz.split hj y hy with h0 | h1
+      · have a1 : ¬ j < y.retries := by omega
+        have a2 : ¬ v.pp.hwm < y.retries := by omega
+        simp [a1, a2]
       · have h2 : j < y.retries := by omega
-        simp [h1, h2]
+        have h3 : v.pp.hwm < y.retries := by omega
+        simp [h3, h2]
     rw [this]; exact h.hi
   · intro hg y hy
     have := h.cap hg y hy
-    rcases hz y hy with h0 | h1
-    · rw [h0]; exact Nat.zero_le _
+    rcases hz.split hj y hy with h0 | h1
+    · exact h0
     · omega
   · intro f hf hk
     have := h.fin1 f hf hk
@@ -245,17 +269,17 @@ theorem VInv.flushGood {v : View} (h : VInv v) (hz : ZV v) {j : Nat} (hj : v.pp.
     (he : v.pp.expect (j + 1) = false) (hg : v.good = true) :
     VInv ⟨downPP v.pp j, v.gw ++ v.buf j, v.av, v.good⟩ := by
   have h0 := h.down0 hz hj he
-  have hlvl0 : ∀ y ∈ data v.av, y.retries = 0 := by
+  have hlvl0 : ∀ y ∈ data v.av, y.retries ≤ j := by
     intro y hy
     have := h.cap hg y hy
-    rcases hz y hy with h1 | h1 <;> omega
+    rcases hz.split hj y hy with h1 | h1 <;> omega
   have hbj : ∀ b ∈ v.buf j, ∀ x, (x ∈ data v.av ∨ ∃ k, k ≠ j ∧ x ∈ v.buf k) → b.id < x.id := by
     intro b hb x hx
     rcases hx with hx | ⟨k, hkj, hx⟩
     · have hk := h.ord j
       rw [List.pairwise_append] at hk
       have := hk.2.2 b (List.mem_append_right _ hb) x hx
-      exact this.1 (by rw [hlvl0 x hx]; exact Nat.zero_le _)
+      exact this.1 (by rw [(buf_typed h hb).1]; exact hlvl0 x hx)
     · have hk' : k < v.pp.hwm := by
         apply Nat.lt_of_not_le; intro hle; rw [buf_above h hle] at hx; simp at hx
       exact h.bufx k j x b hx hb (by omega)
@@ -284,7 +308,7 @@ theorem VInv.flushGood {v : View} (h : VInv v) (hz : ZV v) {j : Nat} (hj : v.pp.
           · have hk' : k < v.pp.hwm := by
               apply Nat.lt_of_not_le; intro hle; rw [buf_above h hle] at hb; simp at hb
             rw [(buf_typed h ha).1, (buf_typed h hb).1] at hl; omega
-          · rw [hlvl0 b hb] at hl; omega
+          · have := hlvl0 b hb; rw [(buf_typed h ha).1] at hl; omega
   · intro g hg' x hx
     rcases List.mem_append.1 hg' with hg' | hg'
     · exact h0.low g hg' x hx
@@ -333,7 +357,7 @@ theorem VInv.flushBad {v : View} (h : VInv v) (hz : ZV v) (M : Nat) {j : Nat} (h
     obtain ⟨b, hb, rfl⟩ := hD d hd
     have h1 : j < a.retries := hlt
     rw [bump_retries, (buf_typed h hb).1]
-    rcases hz a ha with h2 | h2 <;> omega
+    rcases hz.split hj a ha with h2 | h2 <;> omega
   · intro k
     show (View.buf ⟨downPP v.pp j, v.gw, v.av, v.good⟩ k ++ (data v.av ++ bumpF M (v.buf j))).Pairwise R
     rw [← List.append_assoc]
@@ -361,31 +385,36 @@ def stepV (M : Nat) (v : View) (j : Nat) : View :=
    v.av ++ (if v.good then [] else bumpF M (v.buf j)), v.good⟩
 
 theorem VInv.flushOne {v : View} (h : VInv v) (hz : ZV v) (M : Nat) {j : Nat} (hj : v.pp.hwm = j + 1)
-    (he : v.pp.expect (j + 1) = false) : VInv (stepV M v j) ∧ ZV (stepV M v j) := by
+    (he : v.pp.expect (j + 1) = false) :
+    VInv (stepV M v j) ∧ (v.pp.expect j = false → ZV (stepV M v j)) := by
+  have hold : v.pp.expect j = false → ∀ y ∈ data v.av, y.retries = 0 ∨ j < y.retries ∨
+      ∃ k, k < j ∧ v.pp.expect k = true ∧ y.retries ≤ k := by
+    intro hej y hy
+    rcases hz y hy with h1 | h1 | ⟨k, k1, k2, k3⟩
+    · exact Or.inl h1
+    · right; left; omega
+    · have : k ≠ j := fun e => by rw [e, hej] at k2; cases k2
+      exact Or.inr (Or.inr ⟨k, by omega, k2, k3⟩)
   cases hg : v.good with
   | true =>
     have := h.flushGood hz hj he hg
     refine ⟨by simpa [stepV, hg] using this, ?_⟩
-    intro y hy
+    intro hej y hy
     have hy' : y ∈ data v.av := by simpa [stepV, hg] using hy
-    show y.retries = 0 ∨ j < y.retries
-    rcases hz y hy' with h1 | h1
-    · exact Or.inl h1
-    · right; omega
+    exact hold hej y hy'
   | false =>
     have := h.flushBad hz M hj he hg
     have hgw : v.gw = [] := h.gbad hg
     refine ⟨by simpa [stepV, hg, hgw] using this, ?_⟩
-    intro y hy
+    intro hej y hy
     have hy' : y ∈ data (v.av ++ bumpF M (v.buf j)) := by simpa [stepV, hg] using hy
-    show y.retries = 0 ∨ j < y.retries
     rw [data_append] at hy'
     rcases List.mem_append.1 hy' with hy' | hy'
-    · rcases hz y hy' with h1 | h1
-      · exact Or.inl h1
-      · right; omega
+    · exact hold hej y hy'
     · obtain ⟨b, hb, rfl⟩ := mem_bumpF (mem_data.1 hy').1
-      right; rw [bump_retries, (buf_typed h hb).1]; omega
+      right; left
+      show j < (bump b).retries
+      rw [bump_retries, (buf_typed h hb).1]; omega
 
 def emTok : PartProd.Action → Option Tok
   | .emit id l f => some (mkTok id l f)
@@ -449,6 +478,6 @@ theorem VInv.flushAll (M : Nat) : ∀ (n : Nat) {v : View}, VInv v → ZV v → 
     · rw [flushV_stop M v (n + 1) hj (Or.inl hs)]; exact h1.1
     · have hs' : v.pp.expect (n + 1) = false := by simpa using hs
       rw [flushV_cont M v (n + 1) hj hs' (by omega)]
-      exact ih h1.1 h1.2 rfl hs'
+      exact ih h1.1 (h1.2 hs') rfl hs'
 
 end Lemmas.C02sys
